@@ -149,7 +149,13 @@ class InsecureHomeKitProtocol(asyncio.Protocol):
             # close the connection as we are now out of sync with the device
             # and any future requests will fail since the encryption counters
             # will be out of sync.
-            self.transport.write_eof()
+            try:
+                self.transport.write_eof()
+            except OSError:
+                # The peer already reset the connection but the event loop
+                # has not processed that yet; shutting down the socket fails
+                # and must not replace the exception we are handling.
+                pass
             self.transport.close()
             if isinstance(ex, asyncio.TimeoutError):
                 timeout_expired = True
